@@ -67,6 +67,8 @@ type k2Result struct {
 	// converters whose whole plan passes PlanCheck.checkProg (the hypothesis of the composite theorem of C02)
 	InFragment, FragmentAsked int
 	InFragmentU, PathsOK      int // plans passing PlanCheck.checkProgU / PathCheck.pathsOK (same denominator)
+	CustomsFirst, InFragmentS int // … CustomCheck.customsFirst / PlanCheckS.checkProgS
+	HasShare                  int // … with at least one skipCopySameType sharing position
 	// failing calls on which implementation and model chose different entries of a map (Go's iteration order is unspecified):
 	// resolved by re-running the model on the other iteration orders
 	MapOrderResolved, MapOrderTried int
@@ -327,6 +329,17 @@ func runK2(e *env, name string, batches []*k2Batch) (*k2Result, error) {
 							}
 							if rnode.L[3].S == "true" {
 								res.PathsOK++
+							}
+						}
+						if len(rnode.L) >= 7 {
+							if rnode.L[4].S == "true" {
+								res.CustomsFirst++
+							}
+							if rnode.L[5].S == "true" {
+								res.InFragmentS++
+							}
+							if rnode.L[6].S == "true" {
+								res.HasShare++
 							}
 						}
 						mu.Unlock()
